@@ -114,9 +114,9 @@ type sem struct {
 }
 
 var (
-	semAll  = sem{kind: kThreshold, name: "All", fails: func(f, n int) bool { return f >= 1 }}              // some member fails
-	semMost = sem{kind: kThreshold, name: "Most", fails: func(f, n int) bool { return 2*f > n }}            // more than half fail
-	semAny  = sem{kind: kThreshold, name: "Any", fails: func(f, n int) bool { return n >= 1 && f == n }}    // all fail
+	semAll  = sem{kind: kThreshold, name: "All", fails: func(f, n int) bool { return f >= 1 }}           // some member fails
+	semMost = sem{kind: kThreshold, name: "Most", fails: func(f, n int) bool { return 2*f > n }}         // more than half fail
+	semAny  = sem{kind: kThreshold, name: "Any", fails: func(f, n int) bool { return n >= 1 && f == n }} // all fail
 	semOne  = sem{kind: kOne, name: "One"}
 	semFast = sem{kind: kFast, name: "Fast"}
 	semRace = sem{kind: kRace, name: "Race"}
